@@ -697,6 +697,20 @@ func ruleReconcilerWrites(c *Ctx, r *Reporter) {
 			if f == "ID" {
 				if _, ok := loadOfField(st.Val, "StatusSet", "id"); ok && blockReaches(st.Block(), st.Block()) {
 					idSpread = true
+					// every status gets the new id: no filter on its current kind
+					for _, fct := range factsAt(st.Block()) {
+						if bo, ok := fct.Cond.(*ssa.BinOp); ok {
+							for _, op := range []ssa.Value{bo.X, bo.Y} {
+								if p, ok := isLoad(op); ok {
+									if fa2, ok := p.(*ssa.FieldAddr); ok {
+										if _, f2, _ := fieldOf(fa2); f2 == "Kind" || f2 == "kind" {
+											idSpread = false
+										}
+									}
+								}
+							}
+						}
+					}
 				}
 			}
 		}
